@@ -404,6 +404,27 @@ fn spellings() -> Vec<(String, i64)> {
     v
 }
 
+/// (kind, opener, innermost, closer) of deeply nested arithmetic expressions
+const ARITH_TOWERS: &[(&str, &str, &str, &str)] = &[
+    ("parentheses", "(", "1", ")"),
+    ("prefix-operators", "!", "1", ""),
+    ("unary-minus", "- ", "1", ""),
+    ("right-nested-addition", "1+(", "1", ")"),
+    ("conditional", "1?", "1", ":0"),
+    ("assignment-chain", "a=", "1", ""),
+];
+
+pub fn arith_probe(kind: &str, depth: usize) -> i32 {
+    let Some((_, open, mid, close)) = ARITH_TOWERS.iter().find(|t| t.0 == kind) else { return 3 };
+    let src = format!("{}{mid}{}", open.repeat(depth), close.repeat(depth));
+    let mut env: HashMap<String, String> = HashMap::new();
+    match eval(&src, &mut env) {
+        Ok(_) => println!("ok"),
+        Err(_) => println!("err"),
+    }
+    0
+}
+
 pub fn replay(case: &serde_json::Value) -> i32 {
     if let Some(text) = case["expression"].as_str() {
         let mut env: HashMap<String, String> = HashMap::new();
@@ -684,7 +705,26 @@ pub fn run(tier: Tier) -> i32 {
         }
     });
     let class_n = class_n.load(Relaxed);
-    let evals = counters.evals.load(Relaxed) + spell_n + total + ctx_n + class_n;
+    // deep nesting: the evaluator returns (a value or an error) for 100 000 nested constructs;
+    // probed in a subprocess of the harness binary because a stack overflow aborts the process
+    let mut deep_probes = 0u64;
+    for (kind, _, _, _) in ARITH_TOWERS {
+        for depth in [1000usize, 100_000] {
+            deep_probes += 1;
+            match crate::props::c06::probe_subprocess_with("arith-probe", kind, depth, 20) {
+                Ok(()) => {}
+                Err(e) if e.starts_with("MACHINERY") => {
+                    println!("{e}");
+                    std::process::exit(2);
+                }
+                Err(e) => {
+                    let class = if e.contains("signal") { "stack-overflow" } else { "no-termination" };
+                    ctx.violation(&format!("c03:{class}:{kind}"), &format!("{depth} nested `{kind}` constructs: the evaluator {e}"), json!({"tower": kind, "depth": depth}));
+                }
+            }
+        }
+    }
+    let evals = counters.evals.load(Relaxed) + spell_n + total + ctx_n + class_n + deep_probes;
     let cov = json!({
         "evaluations": evals,
         "distinct_nontrivial": counters.errors.load(Relaxed) + (d1.len() as u64),
